@@ -23,6 +23,15 @@ Laws evaluated on the implementation's own output (theorems of Props/C11.v with 
     their own (model: run_call on a FileSet OBJECT); the value returned / the file written must be that of the
     merged dictionary, and the object's default dictionaries, observed after EVERY operation, must be unchanged;
   * empty_selection_noop: explicit selections that are empty (files=[]) are generated for move / copy / delete.
+  * move_failure_conserves / move_given_sound: moves whose conversion FAILS for one payload (a convert function that
+    raises for it, a target handler that cannot store it; random decoration of convert-moves + directed histories).
+    The tree observed after the move that raised must be the one the model's move of exactly the files that ARRIVED
+    under their target names produces (run_movep): the failing file untouched at its source, nothing under its target
+    name, every other selected file either moved or untouched, no other path changed.  Which of the convertible
+    files were moved before move() raised is not determined (parallel workers) and not compared.
+User handlers come in flavours the model does not distinguish (cfg rflav / wflav): two plain functions, or bound methods
+of a user object with the signatures (.., **kwargs), (.., offset=0), (.., offset=0, **kwargs); default, per-call and
+collect arguments must reach all of them alike.
 """
 import datetime as dt
 import json
@@ -40,7 +49,7 @@ HARNESS = core.VERIF / "tools" / "harness" / "c11_run.py"
 TRUSTED = [
     "correspondence harness tools/props/c11.py + tools/harness/c11_run.py (generators, reduction of real files to "
     "[compression, handler, payload] by magic bytes and the standard library, exception classes mapped to an enum)",
-    "handlers (pickle / JSON user handlers through FileHandler(reader=, writer=), typhon CSV, typhon NetCDF4 with "
+    "handlers (pickle / JSON user handlers through FileHandler(reader=, writer=) from plain functions or bound methods, typhon CSV, typhon NetCDF4 with "
     "xarray/netCDF4/pandas) and codecs (gzip, bz2, lzma, zipfile) are Section variables with the hypotheses "
     "dec (enc x) = x, unpack (pack b) = b: their fidelity is exercised on every read-back, not proved",
     "FileSet.find (property C01) is modelled as the brute-force filter; tied on flat, one- and multi-level templates "
@@ -288,6 +297,77 @@ def directed_cases(rng, k0):
     return cases
 
 
+def directed_cases2(rng, k0):
+    """(a) moves with conversion that fails for exactly one of four selected files over a year end (convert function /
+    target handler; move and copy; thread, process and single workers; a selection by filter that leaves files out);
+    (b) user handlers built from bound methods, every signature flavour, with default and per-call arguments."""
+    cases = []
+    base = {"sat": False, "cov": None, "rargs": 0, "wargs": 0, "post": None, "compress": True, "decompress": True,
+            "worker": "thread", "csv_args": 0}
+    sel_all = {"start": None, "end": None, "white": None, "black": None}
+    variants = [("convert", False, "thread", None, 1, 5, False), ("handler", False, "thread", None, 0, "true", False),
+                ("convert", False, "process", None, 2, -1, False), ("convert", True, "thread", None, 1, 0, False),
+                ("handler", False, "thread", 1, 3, 5, False), ("convert", False, "thread", None, 0, "true", True)]
+    for how, copy, worker, maxw, pick, conv, filt in variants:
+        k1, k2 = rng.choice(["pkl", "json"]), rng.choice(["pkl", "json"])
+        sat = "{sat}_" if filt else ""
+        f0 = dict(base, name="fs0", hkind=k1, worker=worker, max_workers=maxw, sat=filt,
+                  path="d0/{year}/{month}/" + sat + "{day}{hour}" + SUFFIX[k1][0],
+                  rargs=rng.choice([0, 3]), post=rng.choice([None, 100]))
+        f0["wargs"] = f0["rargs"]
+        f1 = dict(base, name="fs1", hkind=k2, sat=filt, path="d1/" + ("{sat}/" if filt else "") + "{year}-{doy}T{hour}"
+                  + SUFFIX[k2][0] + rng.choice(["", ".gz"]))
+        day = rng.choice([dt.datetime(2019, 12, 30), dt.datetime(2020, 12, 30), dt.datetime(1999, 12, 30)])
+        v = rng.randrange(1, 50) * 10
+        ops = []
+        for j in range(4):
+            s_ = day + dt.timedelta(days=j, hours=6)
+            ops.append({"op": "write", "fs": 0, "s": us(s_), "e": us(s_), "v": v + j + 1, "slice": False,
+                        "fill": {"sat": SATS[j % 2]} if filt else None, "call_args": None})
+        sel = dict(sel_all, white={"sat": [SATS[0]]}) if filt else sel_all
+        ops += [{"op": "find", "fs": 0, **sel_all},
+                {"op": "move", "fs": 0, "copy": copy, **sel, "target": {"kind": "fs", "fs": 1}, "convert": conv,
+                 "conv_none": False, "fail": {"how": how, "pick": pick}},
+                {"op": "find", "fs": 0, **sel_all},
+                {"op": "collect", "fs": 0, "slice": False, **sel_all, "call_args": None},
+                {"op": "find", "fs": 1, **sel_all}]
+        cases.append({"id": k0 + len(cases), "filesets": [f0, f1], "ops": ops, "directed": "failing-move"})
+    for rfl, wfl, rfl2, wfl2 in [(1, 1, 3, 2), (2, 2, 0, 1), (3, 3, 1, 0), (0, 1, 2, 3), (1, 0, 2, 2), (2, 3, 1, 1)]:
+        k1, k2 = rng.choice(["pkl", "json"]), rng.choice(["pkl", "json"])
+        f0 = dict(base, name="fs0", hkind=k1, rflav=rfl, wflav=wfl, rargs=3, wargs=3,
+                  path="d0/{year}/{month}/{year}{month}{day}T{hour}{minute}{second}" + SUFFIX[k1][0])
+        f1 = dict(base, name="fs1", hkind=k2, rflav=rfl2, wflav=wfl2, rargs=10, wargs=10,
+                  path="d1/{year}{doy}_{hour}{minute}{second}" + SUFFIX[k2][0] + ".gz")
+        day = rng.choice([dt.datetime(2018, 6, 1), dt.datetime(2020, 2, 28)])
+        v = rng.randrange(1, 50) * 10
+        s1, s2 = day + dt.timedelta(hours=3), day + dt.timedelta(days=1, hours=4)
+        ops = [{"op": "write", "fs": 0, "s": us(s1), "e": us(s1), "v": v + 1, "slice": False, "fill": None, "call_args": None},
+               {"op": "write", "fs": 0, "s": us(s2), "e": us(s2), "v": v + 2, "slice": False, "fill": None, "call_args": 4},
+               {"op": "read", "fs": 0, "pick": 0, "pre_args": 0, "call_args": None},
+               {"op": "read", "fs": 0, "pick": 1, "pre_args": 0, "call_args": 7},
+               {"op": "get", "fs": 0, "pick": 1, "pre_args": 0},
+               {"op": "collect", "fs": 0, "slice": False, **sel_all, "call_args": 6},
+               {"op": "move", "fs": 0, "copy": True, **sel_all, "target": {"kind": "fs", "fs": 1}, "convert": "true",
+                "conv_none": False},
+               {"op": "collect", "fs": 1, "slice": False, **sel_all, "call_args": None},
+               {"op": "read", "fs": 1, "pick": 0, "pre_args": 0, "call_args": -3}]
+        cases.append({"id": k0 + len(cases), "filesets": [f0, f1], "ops": ops, "directed": "bound-method-handler"})
+    return cases
+
+
+def decorate(rng, cases):
+    """Drawn AFTER every history has been generated, so that the histories of a seed stay what they were: the flavour of the
+    user handlers (plain functions / bound methods, by signature) and, for moves with conversion, a payload for which
+    the conversion fails (resolved by the child among the files the selection takes)."""
+    for c in cases:
+        for f in c["filesets"]:
+            if f["hkind"] in ("pkl", "json") and rng.random() < 0.6:
+                f["rflav"], f["wflav"] = rng.randrange(4), rng.randrange(4)
+        for op in c["ops"]:
+            if op["op"] == "move" and op.get("convert") is not None and rng.random() < 0.4:
+                op["fail"] = {"how": rng.choice(["convert", "convert", "handler"]), "pick": rng.randrange(64)}
+
+
 # ----------------------------------------------------------------------------- Coq terms
 
 import re
@@ -394,6 +474,20 @@ def op_term(op):
     raise ValueError(n)
 
 
+def injected(op):
+    """a move for which the child resolved a payload whose conversion fails"""
+    return op["op"] == "move" and isinstance(op.get("fail"), dict) and "store" in op["fail"]
+
+
+def movep_term(op, before, after):
+    f, c = op["fail"], op["convert"]
+    wbad = "None" if f["store"] is None else f"(Some {zlit(f['store'])})"
+    cbad = "None" if f["convert"] is None else f"(Some {zlit(f['convert'])})"
+    k = 0 if c == "true" else int(c)
+    return (f"run_movep {wbad} {fset_term(op['cfg'])} {fset_term(op['target_cfg'])} {coq_bool(op['copy'])} "
+            f"(Some (t_convp {zlit(k)} {cbad})) {sel_term(op)} {disk_term(before)} {disk_term(after)}")
+
+
 def disk_term(listing):
     return coq_list([f"({coq_string(p)}, {core.zlist(t)})" for p, t in sorted(listing.items())])
 
@@ -462,7 +556,9 @@ def check_cases(ctx, cases, results):
             if rec["out"]["status"] != "skipped":
                 op = rec["op"]
                 ct = call_term(op)
-                if ct is not None:      # (outcome, read defaults after, write defaults after) of the call on the object
+                if injected(op):        # (all files convertible: tree | first error, tree given what arrived, failing files, hyp)
+                    res = movep_term(op, before, rec["after"])
+                elif ct is not None:    # (outcome, read defaults after, write defaults after) of the call on the object
                     res = f"run_call {fobj_term(op['cfg'])} {ct} {disk_term(before)}, true"
                 else:
                     res = (f"run_step {op_term(op)} {disk_term(before)}, @nil (string * Z), @nil (string * Z), "
@@ -483,6 +579,7 @@ def check_cases(ctx, cases, results):
     skipped_hyp = [0]
     calls = [0]
     wstats = {}
+    fstats = {}
     for (c, k, rec, before), v in zip(index, vals):
         ctx.cov["evaluations"] += 1
         op, out, after = rec["op"], rec["out"], rec["after"]
@@ -494,6 +591,17 @@ def check_cases(ctx, cases, results):
         kind = "failing-input" if hyp else "correspondence"
         name = op["op"]
         where = f"history {c['id']} step {k}: {describe(op)}; tree before: {sorted(before)}"
+        if injected(op):
+            # v = (sequential model, tree prescribed given what arrived, failing files, hypotheses, -)
+            mres, mrd, mwd = check_failed_move(ctx, c, op, out, before, after, norm(v[0]), norm(v[1]), v[2], hyp, where,
+                                               fstats, nontrivial)
+            if mres is None:
+                obj, obj_init = out.get("obj"), out.get("obj_init")
+                if obj is not None and obj != obj_init:
+                    ctx.fail("failing-input", f"after a failed move the FileSet object carries other default arguments than "
+                             f"before: {obj} instead of {obj_init}; {where}", case=c, impl=obj, model=obj_init,
+                             signature="object-state-changed")
+                continue
         is_call = call_term(op) is not None
         if is_call:
             calls[0] += 1
@@ -586,7 +694,51 @@ def check_cases(ctx, cases, results):
     kinds["moves_outside_hypotheses_not_compared"] = skipped_hyp[0]
     kinds["calls_with_arguments_of_their_own"] = calls[0]
     kinds["written_is_found_law"] = wstats
+    kinds["moves_with_a_conversion_that_may_fail"] = fstats
     return len(nontrivial), kinds
+
+
+def check_failed_move(ctx, c, op, out, before, after, full, given, fails, hyp, where, stats, nontrivial):
+    """move_given_sound on the implementation's output.  Returns (None, ..) when the case is settled here, or the
+    triple (mres, [], []) with which the ordinary comparison of a move goes on (no selected file has the payload)."""
+    def count(k):
+        stats[k] = stats.get(k, 0) + 1
+    count("resolved")
+    err = model_err(full[1]) if full[0] == "TBad" else None
+    if not fails or (err is not None and err != "Other"):
+        # the conversion fails for no selected file, or the selection / a target name raises: a move like any other
+        count("no_selected_file_has_the_payload")
+        return full, [], []
+    count("conversion_fails_for_a_selected_file")
+    if not hyp:
+        count("outside_hypotheses_not_compared")
+        return None, None, None
+    how = "the convert function raises" if op["fail"]["convert"] is not None else "the handler of the target cannot store it"
+    if out["status"] != "err":
+        ctx.fail("correspondence", f"move returned normally although the conversion cannot succeed for {fails} ({how}); {where}",
+                 case=c, impl=out, model=str(full), signature="move-no-error")
+    if given[0] == "TBad":
+        ctx.fail("failing-input", f"after a move that failed for {fails} ({how}) a file whose conversion cannot succeed is "
+                 f"present under its target name, or a file that arrived cannot be accounted for ({given[1]}); tree after: "
+                 f"{sorted(after.items())}; {where}", case=c, impl=sorted(after.items()), model=str(given),
+                 signature="failed-move-tree")
+        return None, None, None
+    mdisk = {p: list(t) for p, t in given[1]}
+    if mdisk != after:
+        lost = sorted(set(mdisk) - set(after))
+        extra = sorted(set(after) - set(mdisk))
+        diff = sorted(p for p in set(mdisk) & set(after) if mdisk[p] != after[p])
+        ctx.fail("failing-input", f"after a move whose conversion failed for {fails} ({how}; {out.get('exc')}) the tree is not "
+                 f"what the property prescribes -- a file that did not arrive at its target is still at its source with its "
+                 f"content, a file that arrived is converted and (unless copy) removed, nothing else changes: LOST {lost}, "
+                 f"unexpected {extra}, content differs at {[(p, after[p], mdisk[p]) for p in diff]}; {where}", case=c,
+                 impl=sorted(after.items()), model=sorted(mdisk.items()), signature="failed-move-tree")
+        return None, None, None
+    count("compared_equal")
+    if after != before:
+        count("of_which_other_files_were_moved_before_the_move_raised")
+    nontrivial.add(repr((json.dumps({k_: v_ for k_, v_ in op.items()}, sort_keys=True, default=str), sorted(before.items()))))
+    return None, None, None
 
 
 def end_kind(path):
@@ -647,6 +799,8 @@ def run(ctx):
         nnc = 40
         cases += [gen_case(ctx.rng, n + k, ctx.tier, force_nc=True) for k in range(nnc)]
     ndir = directed_cases(ctx.rng, len(cases))
+    ndir += directed_cases2(ctx.rng, len(cases) + len(ndir))
+    decorate(ctx.rng, cases)        # after every generator draw: the random histories of a seed stay what they were
     cases += ndir
     ctx.log(f"{len(cases)} histories ({len(ndir)} directed), {sum(len(c['ops']) for c in cases)} operations")
     results = run_children(ctx, cases, f"h{os.getpid()}", chunk=6 if not ctx.thorough else 16, jobs=12)
@@ -658,10 +812,14 @@ def run(ctx):
                        "non-trivial = the operation succeeded and changed the tree, or returned at least one payload that "
                        "was compared; distinct by (operation, tree before)")
     ctx.cov["input_distribution"] = {"histories": len(cases), "netcdf_histories_in_child_process": nnc,
-                                     "directed_histories": {d_: sum(1 for c in ndir if c.get("directed") == d_) for d_ in ("year-end", "removed-then-asked", "single-file")},
+                                     "directed_histories": {d_: sum(1 for c in ndir if c.get("directed") == d_) for d_ in ("year-end", "removed-then-asked", "single-file", "failing-move", "bound-method-handler")},
                                      "operations_by_kind": kinds,
                                      "handlers": {k: sum(1 for c in cases for f in c["filesets"] if f["hkind"] == k)
                                                   for k in ("pkl", "json", "csv", "nc")},
+                                     "user_handler_flavours_reader_writer": {
+                                         f"{a}{b}": sum(1 for c in cases for f in c["filesets"] if f["hkind"] in ("pkl", "json")
+                                                        and (f.get("rflav", 0), f.get("wflav", 0)) == (a, b))
+                                         for a in range(4) for b in range(4)},
                                      "compressed_templates": sum(1 for c in cases for f in c["filesets"]
                                                                  if f["path"].rsplit(".", 1)[-1] in ("gz", "bz2", "xz", "zip"))}
     ctx.assumptions += [
@@ -675,6 +833,12 @@ def run(ctx):
         "per-call keyword arguments are exercised with the one keyword the pickle / JSON test handlers take (offset); the "
         "default dictionaries of every FileSet object are observed after every operation for all handlers",
         "a fileset whose name ends in .zip is only moved with convert (a renamed zip archive keeps its member name: C12)",
+        "moves whose conversion fails: compared under the hypotheses of move_failure_conserves (movep_hyp, evaluated in Coq); "
+        "DETERMINED and compared: the failing file is untouched at its source, nothing is under its target name, every other "
+        "selected file is either moved (converted, original removed unless copy) or untouched, no other path changed, move() "
+        "raises; NOT determined and not compared: which of the convertible files were moved before move() raised (the "
+        "model takes the set of files that arrived from the observed tree), and the class of the exception",
+        "user handlers built from bound methods (three signatures) are not distinguished by the model: same expected payloads",
     ]
     return ctx.finish(trusted_base=TRUSTED)
 
